@@ -600,6 +600,9 @@ C15_ProbeBytes(s, o) ==
   \A i \in 1..Len(o.mlog) : o.mlog[i].m = "Probe" =>
      /\ o.mlog[i].n[1] <= o.wire.cs
      /\ (o.drain = "eof" => o.mlog[i].n[1] = o.wire.cs)
+     \* whatever ends the absorption (client's end of stream, timeout, the listener going away): what the prober had sent well
+     \* before the server closed the connection was received, so the report carries all of it
+     /\ (Closed(o) /\ ~s.crst /\ o.lastSendAt # -1 /\ o.lastSendAt < o.closeAt - SlackSched => o.mlog[i].n[1] = o.wire.cs)
      /\ (Reported(o) => o.mlog[i].n[1] = ClosedRec(o).n[1])
 \* outcome classes: one status per class
 ExpectedStatus(s, o) ==
